@@ -58,7 +58,8 @@ RULES = {
 # rare-condition probes with a floor (DESIGN 7.3): a probe stuck at zero is
 # printed as BLIND-PROBE and listed in evidence; it never changes an exit code
 PROBES = {
-    "cosim": ["stat:c06_branch_events", "stat:schedules_ended"],
+    "cosim": ["stat:c06_branch_events", "stat:schedules_ended", "loop_multi_header", "loop_multi_exit",
+              "loop_multi_latch"],
     "histsim": ["edit:pred=region", "edit:pred=branching", "edit:arcs-into-S>=2", "edit:pred=has-backedge",
                 "edit:S=empty", "restart@stage2", "restart@stage3", "name-on-depth>=2", "stat:probes"],
     "envsim": ["stat:fault_raise-at-call", "stat:fault_raise-at-next", "stat:fault_raise-at-iter",
